@@ -97,7 +97,7 @@ theorem step_nil : Proc.step env strict fault fs ⟨[], st, idx, err, log⟩ = (
 
 theorem step_fault_sw {e : Errno} (hfa : fault idx = some e) (hs : swallows strict op e = true) :
     Proc.step env strict fault fs ⟨op :: rest, st, idx, err, log⟩ =
-      (fs, ⟨rest.dropWhile Op.guarded, st, idx + 1, none, log ++ [(op, some e)]⟩) := by
+      (fs, ⟨rest.dropWhile (Op.skips op), st, idx + 1, none, log ++ [(op, some e)]⟩) := by
   simp [Proc.step, hfa, hs]
 
 theorem step_fault_raise {e : Errno} (hfa : fault idx = some e) (hs : swallows strict op e = false) :
@@ -113,7 +113,7 @@ theorem step_ok {fs' : FS α} {st' : StatRes} (hfa : fault idx = none) (hsys : s
 theorem step_err_sw {e : Errno} (hfa : fault idx = none) (hsys : sys env fs st op = .error e)
     (hs : swallows strict op e = true) :
     Proc.step env strict fault fs ⟨op :: rest, st, idx, err, log⟩ =
-      (fs, ⟨rest.dropWhile Op.guarded, st, idx + 1, none, log ++ [(op, some e)]⟩) := by
+      (fs, ⟨rest.dropWhile (Op.skips op), st, idx + 1, none, log ++ [(op, some e)]⟩) := by
   simp [Proc.step, hfa, hsys, hs]
 
 theorem step_err_raise {e : Errno} (hfa : fault idx = none) (hsys : sys env fs st op = .error e)
@@ -154,11 +154,11 @@ theorem StepFacts.ofTmp {t g : Path} {new : List α} {fs fs' : FS α} {p p' : Pr
    fun h => absurd h hp⟩
 
 theorem dropWhile_g3 (t g : Path) :
-    List.dropWhile Op.guarded [(Op.chmod t : Op α), .chown t, .rename t g] = [.rename t g] := rfl
+    List.dropWhile (Op.skips (Op.stat g : Op α)) [(Op.chmod t : Op α), .chown t, .rename t g] = [.rename t g] := rfl
 theorem dropWhile_g2 (t g : Path) :
-    List.dropWhile Op.guarded [(Op.chown t : Op α), .rename t g] = [.rename t g] := rfl
+    List.dropWhile (Op.skips (Op.chmod t : Op α)) [(Op.chown t : Op α), .rename t g] = [.rename t g] := rfl
 theorem dropWhile_g1 (t g : Path) :
-    List.dropWhile Op.guarded [(Op.rename t g : Op α)] = [.rename t g] := rfl
+    List.dropWhile (Op.skips (Op.chown t : Op α)) [(Op.rename t g : Op α)] = [.rename t g] := rfl
 
 theorem rename_mem_tails (t g : Path) : [(Op.rename t g : Op α)] ∈ tails t g := by simp [tails]
 
@@ -248,7 +248,7 @@ theorem step_facts (env : Env) (strict : Bool) (fault : Faults) {t g : Path} {ne
       have hp : (⟨[.chmod t, .chown t, .rename t g], st, idx, err, log⟩ : Proc α).todo ≠ [] := by simp
       have hskip : ∀ e : Errno, swallows strict (Op.chmod t : Op α) e = true →
           StepFacts t g new fs ⟨[.chmod t, .chown t, .rename t g], st, idx, err, log⟩
-            (fs, ⟨List.dropWhile Op.guarded [(Op.chown t : Op α), .rename t g], st, idx + 1, none, log ++ [(.chmod t, some e)]⟩) := by
+            (fs, ⟨List.dropWhile (Op.skips (Op.chmod t : Op α)) [(Op.chown t : Op α), .rename t g], st, idx + 1, none, log ++ [(.chmod t, some e)]⟩) := by
         intro e _
         rw [dropWhile_g2]
         exact StepFacts.ofTmp hgt hp (fun _ _ => rfl) (Or.inr (Or.inr (Or.inr ⟨f, hf, hn, rename_mem_tails t g⟩))) rfl (by simp)
@@ -273,7 +273,7 @@ theorem step_facts (env : Env) (strict : Bool) (fault : Faults) {t g : Path} {ne
       have hp : (⟨[.chown t, .rename t g], st, idx, err, log⟩ : Proc α).todo ≠ [] := by simp
       have hskip : ∀ e : Errno,
           StepFacts t g new fs ⟨[.chown t, .rename t g], st, idx, err, log⟩
-            (fs, ⟨List.dropWhile Op.guarded [(Op.rename t g : Op α)], st, idx + 1, none, log ++ [(.chown t, some e)]⟩) := by
+            (fs, ⟨List.dropWhile (Op.skips (Op.chown t : Op α)) [(Op.rename t g : Op α)], st, idx + 1, none, log ++ [(.chown t, some e)]⟩) := by
         intro e
         rw [dropWhile_g1]
         exact StepFacts.ofTmp hgt hp (fun _ _ => rfl) (Or.inr (Or.inr (Or.inr ⟨f, hf, hn, rename_mem_tails t g⟩))) rfl (by simp)
@@ -288,7 +288,7 @@ theorem step_facts (env : Env) (strict : Bool) (fault : Faults) {t g : Path} {ne
           obtain ⟨m, gg⟩ := mg
           rw [step_ok _ _ _ _ _ _ _ _ _ _ hfa (by simp [sys, hf]; exact ⟨rfl, rfl⟩)]
           refine StepFacts.ofTmp hgt hp (fun q hq => by simp [hq]) ?_ rfl (by simp)
-          exact Or.inr (Or.inr (Or.inr ⟨{ f with gid := gg }, FS.set_same _ _ _, hn, by simp [tails]⟩))
+          exact Or.inr (Or.inr (Or.inr ⟨{ f with gid := gg, mode := killSugid f.mode }, FS.set_same _ _ _, hn, by simp [tails]⟩))
     · -- rename
       have hp : (⟨[.rename t g], st, idx, err, log⟩ : Proc α).todo ≠ [] := by simp
       cases hfa : fault idx with
@@ -373,6 +373,7 @@ end MStep
 
 theorem MInv.step (env : Env) (strict : Bool) (fault : Faults) {t g : Path} {new : List α} {fo : File α}
     {S : Prop} (hS : S → strict = true ∧ ∀ i, fault i ≠ some ENOENT)
+    (hk : killSugid fo.mode = fo.mode)
     (htg : t ≠ g) {fs : FS α} {p : Proc α} (h : CInv t g new fs p) (hm : MInv t g fo S fs p) :
     MInv t g fo S (p.step env strict fault fs).1 (p.step env strict fault fs).2 := by
   have hgt : g ≠ t := fun e => htg e.symm
@@ -524,7 +525,9 @@ theorem MInv.step (env : Env) (strict : Bool) (fault : Faults) {t g : Path} {new
             obtain ⟨f1, hf1, hm1⟩ := hm.tmpm (hback hc) (by simp)
             have : f1 = f := by rw [hf] at hf1; exact (Option.some.inj hf1).symm
             subst this
-            exact ⟨{ f1 with gid := gg }, FS.set_same _ _ _, hm1⟩
+            exact ⟨{ f1 with gid := gg, mode := killSugid f1.mode }, FS.set_same _ _ _, by
+              show killSugid f1.mode = fo.mode
+              rw [hm1]; exact hk⟩
           · intro _ hd; simp [Proc.done] at hd
           · intro hs' _; exact hiff.mpr (Or.inl (hm.strictOk hs' (Or.inl rfl)))
     · -- rename
@@ -708,14 +711,15 @@ theorem SInv.init (t g : Path) (cs : List (List α)) (fs : FS α) :
    fun he => by simp [Proc.init] at he⟩
 
 theorem MInv.runN (env : Env) (strict : Bool) (fault : Faults) {t g : Path} {new : List α} {fo : File α}
-    {S : Prop} (hS : S → strict = true ∧ ∀ i, fault i ≠ some ENOENT) (htg : t ≠ g) (k : Nat) :
+    {S : Prop} (hS : S → strict = true ∧ ∀ i, fault i ≠ some ENOENT) (hk : killSugid fo.mode = fo.mode)
+    (htg : t ≠ g) (k : Nat) :
     ∀ {fs : FS α} {p : Proc α}, CInv t g new fs p → MInv t g fo S fs p →
       MInv t g fo S (runN env strict fault k fs p).1 (runN env strict fault k fs p).2 := by
   induction k with
   | zero => intro fs p _ h; exact h
   | succ k ih =>
     intro fs p hc hm
-    exact ih (step_facts env strict fault htg fs p hc).inv (hm.step env strict fault hS htg hc)
+    exact ih (step_facts env strict fault htg fs p hc).inv (hm.step env strict fault hS hk htg hc)
 
 theorem MInv.init (t g : Path) (cs : List (List α)) (fs : FS α) (fo : File α) (S : Prop) (h : fs g = some fo) :
     MInv t g fo S fs (Proc.init (opsAt t g cs)) := by
@@ -738,7 +742,7 @@ theorem step_todo_lt (env : Env) (strict : Bool) (fault : Faults) (fs : FS α) (
   cases todo with
   | nil => exact absurd rfl h
   | cons op rest =>
-    have hd : (List.dropWhile Op.guarded rest).length ≤ rest.length := (List.dropWhile_sublist _).length_le
+    have hd : (List.dropWhile (Op.skips op) rest).length ≤ rest.length := (List.dropWhile_sublist _).length_le
     simp only [Proc.step]
     split
     · simp
